@@ -208,6 +208,7 @@ def run(tier):
         if quick and len(docs) > 700:
             rng.shuffle(docs)
             docs = docs[:700]
+        prev_obj = [None, 0]
         for n, e in enumerate(docs):
             d = e["doc"]
             pool = [n for n in NAMES if naming.canonical(n)]
@@ -243,6 +244,17 @@ def run(tier):
                     det["difference"] = bad[1]
                     rep.violation(key + ":" + bad[0], bad[0], det)
                     continue
+                # read() into an object that already holds another file's blocks gives what a fresh object gets
+                if prev_obj[0] is not None:
+                    with core.watchdog(30), core.quiet():
+                        prev_obj[0].read(p1, num_variables=e["nvar"] or None)
+                    if [(b_.block, list(b_.variable)) for b_ in prev_obj[0]] != [(b_.block, list(b_.variable)) for b_ in inc2]:
+                        det["difference"] = "read into an object that held %d other blocks: %s, fresh object: %s" % (
+                            prev_obj[1], [b_.block for b_ in prev_obj[0]][:6], [b_.block for b_ in inc2][:6])
+                        rep.violation(key + ":reread-into-loaded-object", "P1_blocks", det)
+                        prev_obj[0] = None
+                        continue
+                prev_obj[0], prev_obj[1] = inc2, inc2.num_blocks
                 # the name quirk is undone whether or not names are checked while reading
                 with core.watchdog(30), core.quiet():
                     inc3 = t2incons.t2incon(p1, num_variables=e["nvar"] or None, check_blocknames=False)
@@ -296,6 +308,9 @@ def run(tier):
                     rep.violation("shipped:%s:second-write" % rel, "P2_second_write_identical", det)
             except core.Hang:
                 rep.violation("shipped:%s:hang" % rel, "P_reader_terminates", det)
+            except Exception as ex:
+                det["error"] = repr(ex)
+                rep.violation("shipped:%s:raises" % rel, "P1_round_trip", det)
         rep.extra["shipped_files"] = nship
         rep.traces += nship
     finally:
